@@ -155,6 +155,22 @@ func c11Case(c *core.Ctx, idx int) {
 		want := tc.cfg.Normalise(v, "", true)
 		// the strongest form: the input mapping is gone; every byte of the decoded value must still be readable
 		g.Free()
+		if idx%5 == 2 {
+			// ... and the program goes on: a collection, then small blocks and the byte buffers of later
+			// messages are allocated. What the decoded value points to must be its own, reachable memory -
+			// not blocks the collector could not see and has handed out again (round 12: k11)
+			gcChurn()
+			later := make([][]byte, 0, 3000)
+			for i := 0; i < 3000; i++ {
+				b := make([]byte, 8+8*(i%4))
+				for k := range b {
+					b[k] = 0xA5
+				}
+				later = append(later, b)
+			}
+			c11Later = later
+			rec.Count("compared_after_collection_and_later_buffers", 1)
+		}
 		var d string
 		fault = mon.Faulting(func() { d = model.Diff(want, target.Elem(), "$") })
 		if fault != "" {
@@ -484,7 +500,7 @@ func init() {
 		ID:        "C11",
 		Technique: "aliasing monitor: deep snapshots, address-range overlap checks of every string/byte slice/map key, scribbling, and inputs in PROT_READ mmap regions ending at a PROT_NONE page that are munmapped before the decoded value is read",
 		Rule: "three damaged encodings per value are decoded from read-only mappings into the type and into an older version of it (fields removed, renamed, added): a fault inside the mapped data is a write to the input. Generated types (string-, byte-slice-, map-key-, intern-, null.String- and JSON-any-bearing shapes arise from the generator) x boundary-biased values. Per value: Marshal into a prefixed buffer with snapshot of value and prefix, overlap check of the returned bytes against all string/byte data of the value, scribble over the output; " +
-			"Unmarshal from a read-only guarded mapping (a write or an over-read faults), address check of all decoded string/byte data against the mapping, munmap, then full comparison of the decoded value (a retained reference faults); the same target decoded into twice from two mappings; three damaged encodings per value decoded from mappings, the target scanned and read after munmap whatever Unmarshal returned; heap input complemented and re-used for another message. distinct = cases whose value has non-zero content and at least one string/byte slice in the decoded value",
+			"Unmarshal from a read-only guarded mapping (a write or an over-read faults), address check of all decoded string/byte data against the mapping, munmap, then (in a fifth of the cases after a garbage collection, 40 000 small allocations and 3 000 later byte buffers) full comparison of the decoded value (a retained reference faults, memory the collector could not see has been handed out again); the same target decoded into twice from two mappings; three damaged encodings per value decoded from mappings, the target scanned and read after munmap whatever Unmarshal returned; heap input complemented and re-used for another message. distinct = cases whose value has non-zero content and at least one string/byte slice in the decoded value",
 		Assume: []string{"debug.SetPanicOnFault turns a fault on the mapping into a recoverable panic carrying the address"},
 		Plan: func(tier string) []core.Lane {
 			if tier == "thorough" {
@@ -495,3 +511,4 @@ func init() {
 		Case: c11Case,
 	})
 }
+var c11Later [][]byte
